@@ -21,7 +21,7 @@ EVID = os.path.join(VERIF, "evidence")
 FOUND = os.path.join(VERIF, "replays", "found")
 REGRESS = os.path.join(VERIF, "replays", "regress")
 NETS = os.path.join(build.BUILD, "nets")
-NCPU = os.cpu_count() or 4
+NCPU = int(os.environ.get("VERIF_JOBS", "0") or 0) or os.cpu_count() or 4
 
 NET_FAMILIES = ["material", "random-small", "random-wide", "extreme", "zero"]
 
